@@ -114,6 +114,12 @@ func compRender(it c01.Item, pos int) []byte {
 }
 
 func doComp(e *c01.Emitter, codes []string, fault string, class string) {
+	doCompRole(e, false, codes, fault, class)
+}
+
+// doCompRole: recv = the receiving side (component.ReceiveSession, `comp 8 …`): the negotiator is
+// not implemented for it; it has to refuse with an error - no I/O, no panic, never a session.
+func doCompRole(e *c01.Emitter, recv bool, codes []string, fault string, class string) {
 	if c01.Aborted() {
 		return
 	}
@@ -137,8 +143,15 @@ func doComp(e *c01.Emitter, codes []string, fault string, class string) {
 	}
 	cs := c01.Case{Script: script, Fault: bare, Ctx: ctxKind, ErrKind: errKind, Render: compRender,
 		Custom: func(ctx context.Context, c net.Conn) (*xmpp.Session, error) {
+			if recv {
+				return component.ReceiveSession(ctx, jid.MustParse("comp.example.net"), []byte("secret"), c)
+			}
 			return component.NewSession(ctx, jid.MustParse("comp.example.net"), []byte("secret"), c)
 		}}
+	st0 := 0
+	if recv {
+		st0 = 8
+	}
 	res := c01.Exec(cs)
 	var evs []string
 	for _, ev := range res.Events {
@@ -157,10 +170,20 @@ func doComp(e *c01.Emitter, codes []string, fault string, class string) {
 	for _, it := range script {
 		sc = append(sc, compCode(it))
 	}
-	line := fmt.Sprintf("comp 0 %s %s", common.Join(sc, ","), fault)
+	line := fmt.Sprintf("comp %d %s %s", st0, common.Join(sc, ","), fault)
 	e.R.Line(line, fmt.Sprintf("%s %s %d", common.Join(evs, ","), res.Outcome, res.State))
 	e.R.Case(line, true, "component/"+class+"/"+res.Outcome)
 	lines := []string{"C04 " + line}
+	if res.Outcome == "PANIC" {
+		role := "initiator"
+		if recv {
+			role = "receive"
+		}
+		e.R.Fail("panic", "component-"+role, lines, "the component handshake panicked: "+res.Err)
+	}
+	if recv && res.Outcome == "done" {
+		e.R.Fail("fail-closed", "component:receive-established", lines, "component.ReceiveSession reported a session although the receiving side of the handshake is not implemented")
+	}
 	for _, f := range c01.Judge(cs, res) {
 		if f.Prop == "C04" {
 			e.R.Fail(f.Clause, "component:"+f.Key, lines, f.Detail+" | "+strings.Join(evs, ",")+" "+res.Outcome)
@@ -231,6 +254,12 @@ func runComponent(e *c01.Emitter) {
 		for n := 0; n < len(good); n++ {
 			doComp(e, good[:n], "-", "cut")
 		}
+	}
+	// the receiving side (component.ReceiveSession): whatever the peer sends, whatever fails
+	for _, sc := range [][]string{nil, {"S1"}, {"P", "S1", "K"}, {"S1", "K2"}, {"X"}, {"T"}} {
+		doCompRole(e, true, sc, "-", "receive")
+		doCompRole(e, true, sc, "0", "receive")
+		doCompRole(e, true, sc, "C0", "receive")
 	}
 	r.Exhaustive = append(r.Exhaustive, fmt.Sprintf("component handshake: every peer script of length <= %d over 8 item kinds; the good handshakes under every failing / blocking operation, every cancellation instant (four kinds of context) and every end of input", maxLen))
 }
